@@ -178,6 +178,18 @@ class OMap:
         self.tests = []  # [(key, Bool)] membership tests, so that d[k] after `k in d` does not raise
 
 
+class UMap:
+    """Symbolic dict whose values are ints or objects (see types.TUnionMap)."""
+
+    def __init__(self, name, present, isint, ival, key_sort, obj_type):
+        self.name = name
+        self.present = present
+        self.isint = isint
+        self.ival = ival
+        self.key_sort = key_sort
+        self.obj_type = obj_type
+
+
 class SFun:
     """Uninterpreted pure callable (input of the function under verification)."""
 
